@@ -115,6 +115,43 @@ theorem init_first_wins {M : Type} (m1 m2 : M) (cur : Option M) :
     (init (setManager (none : Option M) m1) (.ok m2)).1 = some m1 := by
   cases cur <;> exact ⟨rfl, rfl⟩
 
+/-- bridge: `xds.Init`, `SetXDSResourceManager` and `XDSInited` have the bodies the singleton model was written against -/
+theorem facts_init : Generated.initShape = true := by decide
+
+/-- **a failed initialisation stays failed**: as long as every attempt finds the environment incomplete, every call of
+`Init` reports an error and nothing is installed — the second and the tenth call like the first -/
+theorem init_failures_all_reported {M : Type} (builds : List (Except BootErr M)) (h : ∀ b ∈ builds, ∃ e, b = .error e) :
+    initRun (none : Option M) builds = (none, builds.map (fun _ => false)) := by
+  induction builds with
+  | nil => rfl
+  | cons b bs ih =>
+    obtain ⟨e, he⟩ := h b (by simp)
+    subst he
+    have := ih (fun b hb => h b (by simp [hb]))
+    simp [initRun, init, this]
+
+/-- once a manager is installed every later call returns nil and keeps it, whatever the environment has become -/
+theorem init_after_success {M : Type} (m : M) (builds : List (Except BootErr M)) :
+    initRun (some m) builds = (some m, builds.map (fun _ => true)) := by
+  induction builds with
+  | nil => rfl
+  | cons b bs ih => simp [initRun, init, ih]
+
+/-- the first successful construction is the one installed, after any number of failed attempts -/
+theorem init_first_success_wins {M : Type} (fails : List (Except BootErr M)) (h : ∀ b ∈ fails, ∃ e, b = .error e) (m : M)
+    (later : List (Except BootErr M)) :
+    (initRun (none : Option M) (fails ++ .ok m :: later)).1 = some m := by
+  induction fails with
+  | nil => simp [initRun, init, setManager, init_after_success]
+  | cons b bs ih =>
+    obtain ⟨e, he⟩ := h b (by simp)
+    subst he
+    have := ih (fun b hb => h b (by simp [hb]))
+    simp only [List.cons_append, initRun, init]
+    exact this
+
+example : initRun (none : Option Nat) [.error .noName, .error .noNamespace, .ok 7, .error .noIP, .ok 9] = (some 7, [false, false, true, true, true]) := by decide
+
 /-! non-vacuity: the prefix case that separates element from substring membership -/
 example : (lookup (parseMeta T "x" (some [("INSTANCE_IPS", .str "10.0.0.10".toList)]) "1.0" "10.0.0.1".toList) "INSTANCE_IPS")
     = some (.str "10.0.0.10,10.0.0.1".toList) := by decide
